@@ -453,7 +453,7 @@ class Report:
             if f.get("property") == pid]
         # replays of earlier runs are stale
         d = REPLAYS / pid
-        if d.exists():
+        if d.exists() and "--replay" not in sys.argv:
             for f in d.glob("*.json"):
                 try:
                     f.unlink()
